@@ -9,7 +9,7 @@ import Autog.Model.BrandesKoepf
     `extract/translate.go` regenerates from the Go sources of /repo on every run compute (`Autog/Generated/Translated.lean`).
     The views `viewN / viewE / viewL` say how a model state presents a node, an edge, a layer to a Go leaf function
     (pointer identity = index in the store). Every theorem here is universally quantified; none is a sample. A change of an
-    operator, a constant, a field or a branch in one of the 24 translated Go functions changes the generated definition and
+    operator, a constant, a field or a branch in one of the translated Go functions changes the generated definition and
     the corresponding theorem stops type-checking. Core-only. -/
 
 namespace Autog.FactsCheck
@@ -41,13 +41,40 @@ macro "tie_arith" : tactic => `(tactic|
 theorem all_translated : Gen.untranslatable = [] := by decide
 
 theorem translated_ok : Gen.translated = [
-  "internal/graph.Edge.ConnectedNode", "internal/graph.Edge.Crosses", "internal/graph.Edge.IsFlat",
-  "internal/graph.Edge.SelfLoops", "internal/graph.Edge.Type", "internal/graph.Layer.Len", "internal/graph.Node.Deg",
-  "internal/graph.Node.Indeg", "internal/graph.Node.Outdeg", "internal/phase2.slack", "internal/phase3.medianOf",
-  "internal/phase3.orderedEdgeNodes", "internal/phase3.orderedLayers", "internal/phase4.brandesKoepfPositioner.space",
-  "internal/phase4.crosses", "internal/phase4.networkSimplexProcessor.distCenterPoints", "internal/phase4.omega",
-  "internal/phase4.outermostPos", "internal/phase4.withinOutermostPos", "internal/phase5.endPoint",
-  "internal/phase5.isVerticallyAligned", "internal/phase5.nonTerminalPoint", "internal/phase5.startPoint",
+  "internal/geom.aeq0",
+  "internal/geom.b30",
+  "internal/geom.b30pb31",
+  "internal/geom.b31",
+  "internal/geom.b32",
+  "internal/geom.b32pb33",
+  "internal/geom.b33",
+  "internal/geom.ctrlp.coeff",
+  "internal/geom.ctrlp.curvep",
+  "internal/geom.orientation",
+  "internal/geom.solve1",
+  "internal/graph.Edge.ConnectedNode",
+  "internal/graph.Edge.Crosses",
+  "internal/graph.Edge.IsFlat",
+  "internal/graph.Edge.SelfLoops",
+  "internal/graph.Edge.Type",
+  "internal/graph.Layer.Len",
+  "internal/graph.Node.Deg",
+  "internal/graph.Node.Indeg",
+  "internal/graph.Node.Outdeg",
+  "internal/phase2.slack",
+  "internal/phase3.medianOf",
+  "internal/phase3.orderedEdgeNodes",
+  "internal/phase3.orderedLayers",
+  "internal/phase4.brandesKoepfPositioner.space",
+  "internal/phase4.crosses",
+  "internal/phase4.networkSimplexProcessor.distCenterPoints",
+  "internal/phase4.omega",
+  "internal/phase4.outermostPos",
+  "internal/phase4.withinOutermostPos",
+  "internal/phase5.endPoint",
+  "internal/phase5.isVerticallyAligned",
+  "internal/phase5.nonTerminalPoint",
+  "internal/phase5.startPoint",
   "internal/phase5.straight"] := by decide
 
 /-! ## internal/graph -/
